@@ -72,7 +72,7 @@ def check(col, refs, defs, sort=True, transition=True, head="", tail=""):
     if len(set(labels.values())) != len(labels):
         col.fail("C11.distinct-labels", case, f"labels are not pairwise distinct: {labels!r}")
     for lab in defined:
-        if labels[lab] != str(num[lab]):
+        if labels[lab] != (lab if lab.isdigit() else str(num[lab])):  # (a numeric label is shown as written, e.g. 007)
             col.fail("C11.numbering", case, f"[^{lab}] is numbered {labels[lab]!r}, expected {num[lab]} (numeric labels keep their number, others in order of first reference)",
                      known=None if sort else "C11-unsorted-numbering", function="myst_parser.mdit_to_docutils.transforms:SortFootnotes.apply")
             break
@@ -155,6 +155,12 @@ def run(tier, seed, extra):
         col.case(("rand", tuple(refs), tuple(defs), sort, tr, head, tail))
         check(col, refs, defs, sort, tr, head, tail)
         cnt += 1
+    # several manual numbers, one written with leading zeros: collected in ascending NUMERIC order (2, 007, 10)
+    for defs in itertools.permutations(["2", "10", "007"]):
+        for sort in (True, False):
+            col.case(("numeric", defs, sort))
+            check(col, list(defs), list(defs), sort, True)
+            cnt += 1
     col.case(("name-clash",))
     check(col, ["a"], ["a"], head="# a\n\n")
     cnt += 1
